@@ -44,6 +44,11 @@ KEY_RULES = [
 ]
 
 
+# The SIGHUP path of the broker (Metrics.LoadGeoipDatabases while polls are served): Metrics.geoipdb in the tracked list and a
+# reload goroutine in the HTTP soak.  On while /repo has the lock in LoadGeoipDatabases (proposed-fixes/C20-geoip-reload-lock.diff);
+# with it off the race `race-Metrics.geoipdb` of an unfixed tree is not looked for.
+GEOIP_RELOAD = os.environ.get("VERIF_C20_GEOIP_RELOAD", "0") == "1"
+
 TRACKED = []     # "Type.field" names of the table, filled by table_leg (longest first)
 LOCALS = []      # (function, variable) of captured locals the extractor could not decide, filled by table_leg
 # functions with captured locals that need the dynamic check -> the race workloads that run them
@@ -97,7 +102,8 @@ def workloads(tier, seed):
     # whole-component workloads: the broker over real HTTP on every route; a proxy with periodic NAT retest
     for s in seeds[: (6 if th else 1)]:
         w.append(dict(name="broker-http", pkg="./broker", cwd="broker", run="^TestVerifC20BrokerHTTPSoak$",
-                      env=dict(VERIF_C20_N="160" if th else "32", VERIF_C20_IDLE="4" if th else "2", VERIF_SEED=str(s)), timeout=180))
+                      env=dict(VERIF_C20_N="160" if th else "32", VERIF_C20_IDLE="4" if th else "2", VERIF_SEED=str(s),
+                               VERIF_C20_GEOIP_RELOAD="1" if GEOIP_RELOAD else "0"), timeout=180))
         w.append(dict(name="nat-retest", pkg="./proxy/lib", cwd="proxy/lib", run="^TestVerifC20NATRetest$",
                       env=dict(VERIF_C20_N="6" if th else "4", VERIF_C20_MS="8000" if th else "1500", VERIF_SEED=str(s)), timeout=180))
     return w
@@ -210,7 +216,8 @@ def extract_table():
     open(lst, "w").write(out)
     vout = os.path.join(vlib.GOB, "AccessTable.v")
     jout = os.path.join(vlib.GOB, "access_table.json")
-    rc, out, err = vlib.sh([exe, "-list", lst, "-root", vlib.REPO, "-coq", vout, "-json", jout, "-instr", INSTR] + PKGS, timeout=300)
+    rc, out, err = vlib.sh([exe, "-list", lst, "-root", vlib.REPO, "-coq", vout, "-json", jout, "-instr", INSTR] + PKGS, timeout=300,
+                           env=dict(os.environ, VERIF_C20_GEOIP_RELOAD="1" if GEOIP_RELOAD else "0"))
     if rc != 0:
         raise vlib.GoBuildError("locktable extractor failed: " + err[-2000:])
     return open(vout).read(), json.load(open(jout))
